@@ -73,6 +73,10 @@
 //   offset() shows as an offset violation judged by the oracle, never as a broken check.
 // Results with holes: offset.single.ring, offset.nested, offset.pinch and offset.multi_hole (several outers with
 //   holes) run in the quick tier with all joins, both union settings, growing and shrinking.
+// Overloads: every single-member case (rectangles, L, triangles, key-holed rings, plates with slits, self-
+//   overlapping polygons, the scaling alphabets) is also run through the inline `offset(const Polygon&, ...)`
+//   overload with the same arguments; it is judged by the same oracle (tag overload=polygon) and must cover the same
+//   samples as the Array overload (class overload_disagree).
 // Pinching holes: sub-check offset.pinch (see pinch_groups()) offsets plates by exactly half a neck width / half
 //   a hole gap (and by the neighbouring distances), all joins, both union settings, scalings 1000 and 2^20.
 // Union option: members of one partition family (same region, different polygons) are offset with
@@ -409,13 +413,15 @@ struct Result {
     eg::i128 area2 = 0;  // sum of |2*area| over result polygons (slits contribute nothing)
     ld perimeter = 0;
 };
-static Result call_offset(const Group& G, const Cfg& c) {
+// polygon_overload: call the inline `offset(const Polygon&, ...)` overload (single-member groups only)
+static Result call_offset(const Group& G, const Cfg& c, bool polygon_overload = false) {
     Result res;
     Array<Polygon*> in = {};
     for (auto* p : G.gp) in.append(p);
     Array<Polygon*> out = {};
     double sc = SCALINGS[c.sc];
-    res.ec = offset(in, c.d, JOINS[c.join].j, JOINS[c.join].tol, sc, c.uni, out);
+    if (polygon_overload) res.ec = offset(*G.gp[0], c.d, JOINS[c.join].j, JOINS[c.join].tol, sc, c.uni, out);
+    else res.ec = offset(in, c.d, JOINS[c.join].j, JOINS[c.join].tol, sc, c.uni, out);
     in.clear();
     for (uint64_t i = 0; i < out.count; i++) {
         Polygon* p = out[i];
@@ -477,7 +483,7 @@ static void window(const c13::Field& F, double ext, int& i0, int& i1, int& j0, i
 }
 
 // judge one executed case; returns number of violating samples
-static int64_t judge(const Group& G, const c13::Field& F, const Cfg& c, const Result& res, const std::string& sub, Tally& t) {
+static int64_t judge(const Group& G, const c13::Field& F, const Cfg& c, const Result& res, const std::string& sub, Tally& t, const char* overload = "array") {
     const Join& J = JOINS[c.join];
     const double sc = SCALINGS[c.sc];
     const int64_t S = (int64_t)sc;
@@ -488,8 +494,8 @@ static int64_t judge(const Group& G, const c13::Field& F, const Cfg& c, const Re
     std::string replay = "sub=" + sub + " spec=" + spec_of(G.shapes) + " " + cfg_str(c) + fmt(" r=%d", F.r);
     JFields tags = {{"sign", jstr(grow ? "pos" : "neg")}, {"join", jstr(J.name)}, {"use_union", jbool(c.uni)},
                     {"scaling", jnum(sc)}, {"relation", jstr(G.rel)}, {"group", jstr(G.kind)},
-                    {"has_internal_edges", jbool(!G.pc.internal.empty())}, {"abs_distance", jnum(r)}, {"winding", jstr(G.orient)}, {"mixed_winding", jbool(G.mixed)}};
-    std::string cj = jobj({{"group", group_json(G)}, {"config", cfg_json(c)}, {"refinement", jint(F.r)}});
+                    {"has_internal_edges", jbool(!G.pc.internal.empty())}, {"abs_distance", jnum(r)}, {"winding", jstr(G.orient)}, {"mixed_winding", jbool(G.mixed)}, {"overload", jstr(overload)}};
+    std::string cj = jobj({{"group", group_json(G)}, {"config", cfg_json(c)}, {"refinement", jint(F.r)}, {"overload", jstr(overload)}});
     int i0, i1, j0, j1;
     window(F, grow ? Rr + 1.5 : 1.0, i0, i1, j0, j1);
     struct Bad { int64_t n = 0; std::string first; };
@@ -599,6 +605,44 @@ static void run_case(const Group& G, const c13::Field& F, const Cfg& c, const ch
     R->count("samples_dontcare_band", t.dc_band);
     R->count("samples_dontcare_slit", t.dc_slit);
     if (t.overlap_nounion) R->count("samples_overlap_nounion", t.overlap_nounion);
+    if (G.gp.size() == 1) {
+        // every single-member case also goes through the inline `offset(const Polygon&, ...)` overload: same oracle,
+        // and both overloads must give the same covered region for the same arguments.  An identical vertex list has
+        // the verdict already given; anything else is judged again and compared sample by sample.
+        Result r2 = call_offset(G, c, true);
+        R->count("cases");
+        R->count("cases_polygon_overload");
+        if (r2.ec == res.ec && r2.polys == res.polys) R->count("polygon_overload_identical_result");
+        else {
+            Tally t2;
+            judge(G, F, c, r2, sub, t2, "polygon");
+            R->count("samples_must_cover", t2.must_cover);
+            R->count("samples_must_not_cover", t2.must_not);
+            R->count("samples_dontcare_band", t2.dc_band);
+            R->count("samples_dontcare_slit", t2.dc_slit);
+            const double sc = SCALINGS[c.sc];
+            const ld guard = 3.0L * KM;
+            int i0, i1, j0, j1;
+            window(F, c.d > 0 ? fabs(c.d) * JOINS[c.join].reach + 1.5 : 1.0, i0, i1, j0, j1);
+            int64_t nd = 0;
+            std::string first;
+            for (int j = j0; j < j1; j++)
+                for (int i = i0; i < i1; i++) {
+                    eg::P q = sample_pt(i, j, F.r, (int64_t)sc);
+                    bool oa, ob;
+                    bool ca = cover_count(res, q, oa) > 0 || oa, cb = cover_count(r2, q, ob) > 0 || ob;
+                    if (ca == cb) continue;
+                    if (eg::dist_boundary(res.polys, q) <= guard || eg::dist_boundary(r2.polys, q) <= guard) continue;
+                    if (!nd++) first = fmt("sample (%.6Lf,%.6Lf): Array overload %s, Polygon overload %s", F.sx(i), F.sy(j), ca ? "covers" : "does not cover", cb ? "covers" : "does not cover");
+                }
+            if (nd)
+                R->violation(sub, "overload_disagree",
+                             {{"sign", jstr(c.d > 0 ? "pos" : "neg")}, {"join", jstr(JOINS[c.join].name)}, {"use_union", jbool(c.uni)}, {"scaling", jnum(sc)}, {"group", jstr(G.kind)}, {"has_internal_edges", jbool(!G.pc.internal.empty())}, {"kind", jstr("overload_disagree")}},
+                             jobj({{"group", group_json(G)}, {"config", cfg_json(c)}, {"refinement", jint(F.r)}}),
+                             first + fmt("; %lld sample(s); array result=", (long long)nd) + result_json(res, sc) + " polygon result=" + result_json(r2, sc),
+                             "sub=" + std::string(sub) + " spec=" + spec_of(G.shapes) + " " + cfg_str(c) + fmt(" r=%d", F.r));
+        }
+    }
     // non-trivial (measured on the result): component vanished/split, components merged, hole closed
     bool nt = false;
     int np = (int)res.polys.size();
@@ -1122,6 +1166,17 @@ int main(int argc, char** argv) {
     {
         auto N = multi_hole_groups();
         run_groups("offset.multi_hole", fmt("%zu groups whose result has several outer contours with holes (2-3 frames side by side / stacked / diagonal, frames beside plain shapes, key-holed and as bars, windings, diamond frame as two halves)", N.size()), N, 2, T ? std::vector<int>{0, 1} : std::vector<int>{0});
+    }
+    {
+        // single polygons that overlap themselves (a curl inside the outline: winding 2 there, never negative); their
+        // region is the non-zero-winding set, the doubled edges are internal edges
+        Shape a = poly({{0, 0}, {3, 0}, {3, 2}, {1, 2}, {1, 1}, {2, 1}, {2, 3}, {0, 3}}, "selfoverlap");
+        Shape b = poly({{0, 0}, {5, 0}, {5, 3}, {2, 3}, {2, 1}, {4, 1}, {4, 4}, {0, 4}}, "selfoverlap");
+        Shape c2 = poly({{0, 0}, {4, 0}, {4, 2}, {3, 3}, {1, 1}, {1, 3}, {3, 1}, {4, 2}, {4, 4}, {0, 4}}, "selfoverlap");
+        std::vector<std::vector<Shape>> SO;
+        for (Shape sh : {a, b}) { SO.push_back({sh}); sh.rev = true; SO.push_back({sh}); }
+        (void)c2;
+        run_groups("offset.single.selfoverlap", fmt("%zu self-overlapping single polygons (outline with an inner curl, both windings)", SO.size()), SO, r1);
     }
     run_families(r1, T);
     run_groups("offset.single.L", T ? "all 1600 L shapes (every position), both orientations" : "144 L shapes (bounding box 2..4, every notch, 4 corners; one per translation class)", singles("L", T, T, T ? LAT : 4), r1);
